@@ -105,6 +105,15 @@ namespace AIToolbox::Factored {
         return retval;
     }
 
+    void join(const size_t S, PartialFactors * lhsp, const PartialFactors & rhs) {
+        if (!lhsp) return;
+        auto & lhs = *lhsp;
+
+        lhs.first.reserve(lhs.first.size() + rhs.first.size());
+        for (const auto k : rhs.first) lhs.first.push_back(k + S);
+        lhs.second.insert(std::end(lhs.second), std::begin(rhs.second), std::end(rhs.second));
+    }
+
     PartialFactors join(const size_t S, const PartialFactors & lhs, const PartialFactors & rhs) {
         PartialFactors retval;
         retval.first = join(S, lhs.first, rhs.first);
